@@ -82,6 +82,7 @@ pub fn run_direct(args: &Args, rep: &mut Report) {
     let chunks = 6u64 * 6 * 6;
     run_cases(args, "C07", chunks + 1, rep, &mut |c, rep| {
         if !mine(args, c) {
+            rep.cases -= 1;
             return;
         }
         if c == chunks {
@@ -274,6 +275,7 @@ pub fn run_c08_direct(args: &Args, rep: &mut Report) {
     let bound = if args.thorough { 5 } else { 4 };
     run_cases(args, "C08", 19, rep, &mut |c, rep| {
         if !mine(args, c) {
+            rep.cases -= 1;
             return;
         }
         if c == 18 {
